@@ -1,0 +1,43 @@
+//go:build verif
+// +build verif
+
+package util
+
+import "fmt"
+
+// Verification hooks (build tag `verif` only). Explicit field lists: a change of the queue
+// structs breaks these at compile time instead of silently dropping state from the dump.
+
+// VerifDump returns every state-carrying field of the queue in a canonical text form.
+func (q *InQueue) VerifDump() string {
+	q.mutex.Lock()
+	defer q.mutex.Unlock()
+	fut := ""
+	for _, p := range q.future {
+		fut += fmt.Sprintf("%d:%x,", p.SeqNo, p.Data)
+	}
+	return fmt.Sprintf("in{next=%d buf=%x future=[%s] acked=%v has=%v}", q.NextSeqNo, q.in, fut, q.acked, q.queueHasData)
+}
+
+// VerifDump returns every state-carrying field of the queue in a canonical text form.
+func (q *OutQueue) VerifDump() string {
+	q.mutex.Lock()
+	defer q.mutex.Unlock()
+	out := ""
+	for _, p := range q.out {
+		out += fmt.Sprintf("%d:%x,", p.SeqNo, p.Data)
+	}
+	return fmt.Sprintf("out{next=%d out=[%s] acked=%v has=%v}", q.NextSeqNo, out, q.acked, q.queueHasData)
+}
+
+// VerifSetNext positions both sequence counters (used to start an exploration close to the
+// 16-bit wrap-around without pushing 65 536 packets first).
+func (q *InQueue) VerifSetNext(n uint16)  { q.NextSeqNo = n }
+func (q *OutQueue) VerifSetNext(n uint16) { q.NextSeqNo = n }
+
+// VerifPending reports the number of packets waiting for an acknowledgement.
+func (q *OutQueue) VerifPending() int {
+	q.mutex.Lock()
+	defer q.mutex.Unlock()
+	return len(q.out)
+}
